@@ -278,15 +278,50 @@ Migrate ==
                                                 (CHOOSE o \in StrOps(R) : o.id = MaxId({p.id : p \in StrOps(R)})).val.toks)
   /\ UNCHANGED <<ops, deps, enc>>
 
+(* C32: the serde image of the current state: winners only, text as strings, nested *)
+NumStr(v) == IF v.k = "counter" THEN (IF v.s = "" THEN ToString(v.n) ELSE v.s) ELSE v.s
+ScalarImage(v) ==
+  CASE v.k = "str" -> [t |-> "str", toks |-> v.toks]
+    [] v.k \in {"int", "uint", "counter", "ts"} -> [t |-> "num", s |-> NumStr(v)]
+    [] v.k = "bool" -> [t |-> "bool", s |-> v.s]
+    [] v.k = "null" -> [t |-> "null"]
+    [] OTHER -> [t |-> "other", s |-> v.k]
+RegWinner(R) == CHOOSE o \in R : o.id = MaxId({p.id : p \in R})
+RECURSIVE ImageOfObj(_, _)
+ImageOfOp(O, w) ==
+  IF w.act = "make" THEN ImageOfObj(O, w.id) ELSE ScalarImage(Shown(O, w))
+ImageOfObj(O, obj) ==
+  LET ty == ObjTypeOf(O, obj) IN
+  IF ty \in {"map", "table"} THEN
+    [t |-> "map", ents |-> {[k |-> k, v |-> ImageOfOp(O, RegWinner(MapReg(O, obj, k)))] : k \in MapKeys(O, obj)}]
+  ELSE IF ty = "list" THEN
+    Let1(VisibleElems(O, obj), LAMBDA es :
+      [t |-> "seq", items |-> [i \in DOMAIN es |-> ImageOfOp(O, RegWinner(ElemReg(O, obj, es[i])))]])
+  ELSE [t |-> "str", toks |-> TextToksOf(O, obj)]
+(* the logged JSON, with the arrays that stand for sets turned into sets *)
+RECURSIVE NormImage(_)
+NormImage(j) ==
+  IF j.t = "map" THEN [t |-> "map", ents |-> {[k |-> j.ents[i].k, v |-> NormImage(j.ents[i].v)] : i \in DOMAIN j.ents}]
+  ELSE IF j.t = "seq" THEN [t |-> "seq", items |-> [i \in DOMAIN j.items |-> NormImage(j.items[i])]]
+  ELSE j
+Serde ==
+  /\ IsEv("serde")
+  /\ Chk("C32", "serialising-succeeds", E.res = "ok")
+  /\ (E.res = "ok") =>
+       /\ Chk("C32", "containers-announce-their-true-length", E.strict = "ok")
+       /\ \A O \in {OpsOf(ops, S(E.obs.applied))} :
+            Chk("C32", "serde-image-equals-the-current-state", NormImage(E.json) = ImageOfObj(O, ROOT))
+  /\ UNCHANGED <<ops, deps, enc>>
+
 Other ==
   /\ l <= Len(Rec)
-  /\ E.ev \notin {"reset", "commit", "chgdef", "readat", "curs", "idprobe", "migrate"}
+  /\ E.ev \notin {"reset", "commit", "chgdef", "readat", "curs", "idprobe", "migrate", "serde"}
   /\ l' = l + 1
   /\ ObsOK(ops)
   /\ UNCHANGED <<ops, deps, enc>>
 
 Init == l = 1 /\ ops = <<>> /\ deps = <<>> /\ enc = "cp"
-Next == Reset \/ Commit \/ ChgDef \/ ReadAt \/ Curs \/ IdProbe \/ Migrate \/ Other
+Next == Reset \/ Commit \/ ChgDef \/ ReadAt \/ Curs \/ IdProbe \/ Migrate \/ Serde \/ Other
 Spec == Init /\ [][Next]_vars
 
 Accepted ==
